@@ -7,7 +7,7 @@
 //   ^[+-]?(?: 0x[0-9A-Fa-f_]+ | 0o[0-7_]+ | 0b[01_]+
 //           | (?: [0-9][0-9_]*\.[0-9_]* | \.[0-9][0-9_]* ) (?:[eE][+-]?[0-9][0-9_]*)?
 //           | [0-9][0-9_]*[eE][+-]?[0-9][0-9_]*
-//           | [0-9][0-9_]* )$
+//           | _*[0-9][0-9_]* )$
 #![allow(dead_code)]
 
 fn is_dec(c: u8) -> bool {
@@ -75,6 +75,19 @@ pub fn numeric_looking(s: &str) -> bool {
             Some(k) => k == r.len() || exponent_to_end(r, k),
             None => false,
         };
+    }
+    // `_*[0-9][0-9_]*` to the end: plain integer with optional leading separators
+    {
+        let mut j = 0;
+        while j < r.len() && r[j] == b'_' {
+            j += 1;
+        }
+        if j > 0 {
+            return match digits_run(r, j) {
+                Some(k) => k == r.len(),
+                None => false,
+            };
+        }
     }
     // starts with a digit run
     match digits_run(r, 0) {
